@@ -77,9 +77,9 @@ Print Assumptions C05_witness_unaffected.
 Definition C05_deny_witness : list event :=
   [ {| e_conn := 0; e_kind := EConnect; e_script := [] |};
     {| e_conn := 1; e_kind := EConnect;
-       e_script := [ {| f_fn := FHandshake; f_site := asite tables FHandshake KRecvStub 0;
+       e_script := [ {| f_fn := FHandshake; f_site := asite tables FHandshake KRecvStub 0; f_recv := true;
                         f_exc := mro tables "errors.ProtocolError" |};
-                     {| f_fn := FHandshake; f_site := asite tables FHandshake KSend 0;
+                     {| f_fn := FHandshake; f_site := asite tables FHandshake KSend 0; f_recv := false;
                         f_exc := mro tables "errors.ConnectionClosedError" |} ] |} ].
 Theorem C05_deny_unguarded_refuted :
   containment_ok (unguard_deny tables) = false /\
@@ -102,9 +102,9 @@ Proof. vm_compute. reflexivity. Qed.
 Example C05_nonvacuous_request :
   let boom := ["Boom"; "Exception"; "BaseException"] in
   let ev := {| e_conn := 1; e_kind := ERequest {| q_oneway := false; q_callback := false |};
-               e_script := [ {| f_fn := FHandleRequest; f_site := asite tables FHandleRequest KMethod 1; f_exc := boom |};
-                             {| f_fn := FSendExc; f_site := asite tables FSendExc KDumps 0; f_exc := mro tables "TypeError" |};
-                             {| f_fn := FSendExc; f_site := asite tables FSendExc KSend 0;
+               e_script := [ {| f_fn := FHandleRequest; f_site := asite tables FHandleRequest KMethod 1; f_recv := false; f_exc := boom |};
+                             {| f_fn := FSendExc; f_site := asite tables FSendExc KDumps 0; f_recv := false; f_exc := mro tables "TypeError" |};
+                             {| f_fn := FSendExc; f_site := asite tables FSendExc KSend 0; f_recv := false;
                                 f_exc := mro tables "errors.ConnectionClosedError" |} ] |} in
   wf_events [ev] = true /\
   run_from tables SMux 4 {| alive := true; busy := 0; live := [1; 0] |} [ev] =
